@@ -7,8 +7,14 @@
           | (rpc k)                        caller c goes through the gRPC hop of remote apricot c mod k: the
                                            protocol call is the same, its answer crosses `viaHop codeHop`
                                            (Model/RunRemote.lean: an error comes back as (0, that error))
-  sched  := ((r c) | (w c) | (e c) | (f raw) | (d) | (x c))*
-  obs    := (calls store)
+          | (inst k)                       START-UPS ARE STEPS (Model/RunStartup.lean): k instances, none up at
+                                           the beginning; `(s j)` constructs instance j; caller c asks instance
+                                           c mod k and cannot be launched before it is up
+  sched  := ((r c) | (w c) | (e c) | (f raw) | (d) | (x c) | (s j))*      (s j) only with (inst k)
+  obs    := (calls store)  |  (calls store insts (own (B A)…))            the latter with (inst k)
+  insts  := ((j istatus start end reqs) …)  for j = 0..k-1; reqs = what Consul processed FOR THE CONSTRUCTION
+  istatus:= down | starting | up | (failed CLASS)
+  own    := levels of the counter before/after every write of the code under test that Consul applied
   calls  := ((c status start end reqs) …)  for c = 0..n-1
   status := idle | pending | dead | (ok N) | (err CLASS V)
   reqs   := ((get C) | (put I BODY ANS))*  requests Consul PROCESSED for that caller
@@ -28,6 +34,7 @@ import ControlModel.Basic
 import ControlModel.Model.RunNumber
 import ControlModel.Model.RunAttempts
 import ControlModel.Model.RunRemote
+import ControlModel.Model.RunStartup
 import ControlModel.Spec.C07
 import Driver.EnvCommon
 
@@ -89,6 +96,38 @@ def storeSx (st : Store) : SExp :=
 
 def obsSx (n : Nat) (s : Sys) (hop : Option Hop := none) : SExp :=
   .list [.list ((List.range n).map fun c => callSx c hop (s.callers c)), storeSx s.store]
+
+/-! ### start-ups as steps -/
+
+def parseSStep : SExp → Option SStep
+  | .list [.atom "s", j] => do pure (.start (← j.nat?))
+  | x => (parseStep x).map .base
+
+def instSx (j : Nat) : IState → SExp
+  | .down => .list [.ofNat j, .atom "down", .atom "-", .atom "-", .list []]
+  | .probing t => .list [.ofNat j, .atom "starting", .ofNat t, .atom "-", .list []]
+  | .up t t' => .list [.ofNat j, .atom "up", .ofNat t, .ofNat t', .list []]
+
+def ownSx (own : List (Nat × Nat)) : SExp :=
+  .list (.atom "own" :: own.map fun ba => .list [.ofNat ba.1, .ofNat ba.2])
+
+def sobsSx (n k : Nat) (s : SSys) : SExp :=
+  .list [.list ((List.range n).map fun c => callSx c none (s.base.callers c)), storeSx s.base.store,
+         .list ((List.range k).map fun j => instSx j (s.inst j)), ownSx s.own]
+
+def parseOwn : SExp → Option (List (Nat × Nat))
+  | .list (.atom "own" :: ps) => ps.mapM? fun
+    | .list [b, a] => do pure ((← b.nat?), (← a.nat?))
+    | _ => none
+  | _ => none
+
+/-- `(inst k)` as the optional fourth element. -/
+def routeInst : List SExp → Option Nat
+  | [.list [.atom "inst", k]] => match k.nat? with | some k => if 1 ≤ k && k ≤ 4 then some k else none | none => none
+  | _ => none
+
+def startsWithin (k : Nat) (sched : List SStep) : Bool :=
+  sched.all fun | .start j => decide (j < k) | _ => true
 
 /-- Read the implementation's observation back as `CallObs`. -/
 def parseCall : SExp → Option CallObs
@@ -168,6 +207,24 @@ def processLine (line : String) : String :=
   | [inp, impl] =>
     match SExp.parse inp with
     | some (.list [.list _, .list _, _]) => processEnv inp impl
+    | some (.list [n, st, .list steps, .list [.atom "inst", kx]]) =>
+      match n.nat?, parseStore st, steps.mapM? parseSStep, routeInst [.list [.atom "inst", kx]] with
+      | some n, some st, some sched, some k =>
+        if !(decide st.WF) || !startsWithin k sched then "BADINPUT\t0\t-" else
+        let p := codeProto
+        let home : Homes := fun c => some (c % k)
+        let s := srun codeStart p home sched (sinit st)
+        let model := sobsSx n k s
+        let fm := SForeignMonotone codeStart p home sched (sinit st)
+        let parsed : Option (List CallObs × List (Nat × Nat)) := do
+          match (← SExp.parse impl) with
+          | .list [.list cs, _, .list _, own] => pure ((← cs.mapM? parseCall), (← parseOwn own))
+          | _ => none
+        let spec := match parsed with
+          | none => false          -- a panic or an unparsable observation is never accepted
+          | some (cs, own) => SpecStart fm st.level cs own
+        s!"{model}\t{if spec then 1 else 0}\t-"
+      | _, _, _, _ => "BADINPUT\t0\t-"
     | some (.list (n :: st :: .list steps :: route)) =>
       match n.nat?, parseStore st, steps.mapM? parseStep with
       | some n, some st, some sched =>
